@@ -264,7 +264,11 @@ class SchemaBuilder(
                 self.visit_with_conv(field.type, self._field_conversion(field)),
                 field.schema,
             )
-        if object_schema.get("type") not in {JsonType.OBJECT, "object"}:
+        if (
+            object_schema.get("type") not in {JsonType.OBJECT, "object"}
+            # object having flattened fields itself
+            and not ("allOf" in object_schema and field.flattened)
+        ):
             field_type = "Flattened" if field.flattened else "Properties"
             raise TypeError(
                 f"{field_type} field {cls.__name__}.{field.name}"
